@@ -357,6 +357,9 @@ pub struct GenCfg {
     pub spec: Spec,
     /// maximum distance allowed (for ring tests with small rings); 32768 normally
     pub max_dist: usize,
+    /// length 258 may be spelled 284 + 31 extra (accepted by zlib and by the crate, outside the RFC's table:
+    /// "unspecified" for accept/reject comparisons, but a perfectly good input for schedule / budget properties)
+    pub alt258: bool,
     /// > 0: "window edge" family - the first block(s) produce exactly this many bytes and the next block
     /// starts with a match whose distance sits on that edge (32767 / 32768 / = produced ...)
     pub edge: usize,
@@ -394,9 +397,17 @@ fn lentab() -> LenTab {
     }
 }
 
+thread_local! {
+    /// decided once per block by write_block (len_sym is called twice per match and must agree with itself)
+    static ALT258: std::cell::Cell<bool> = const { std::cell::Cell::new(false) };
+}
+
 fn len_sym(t: &LenTab, len: usize, rng: &mut Rng) -> (usize, u32, u32) {
-    // length 258 has two encodings in practice (285, or 284+31 which is "unspecified"): use 285 only.
+    // length 258 has two encodings in practice: 285, or 284 + 31 which is "unspecified" (GenCfg::alt258)
     if len == 258 {
+        if ALT258.with(|c| c.get()) {
+            return (284, 31, 5);
+        }
         return (285, 0, 0);
     }
     let _ = rng;
@@ -553,6 +564,8 @@ fn write_block(
     preset: Option<(Vec<T>, u8)>,
     force_first: Option<(usize, usize)>,
 ) -> u8 {
+    let alt = cfg.alt258 && rng.chance(1, 3);
+    ALT258.with(|c| c.set(alt));
     let mut btype = match rng.below(10) {
         0 | 1 => 0u8,
         2 | 3 | 4 => 1,
